@@ -57,8 +57,35 @@ type c19Req struct {
 }
 
 type c19Case struct {
-	Stressed bool     `json:"stressed"`
-	Reqs     []c19Req `json:"reqs"`
+	Stressed bool `json:"stressed"`
+	// Hop: foreign spans really travel: this node's peer transmission is a real
+	// DirectTransmission aimed at the peer listener of a second node that owns them.
+	Hop         bool     `json:"hop,omitempty"`
+	HopCompress bool     `json:"hop_compress,omitempty"`
+	Reqs        []c19Req `json:"reqs"`
+}
+
+// c19Datasets: raw path segments as a client may write them ('+' and sub-delims are
+// legal literally; everything else percent-encoded). Dot segments are left out
+// (known C26 finding C26/misaddressed/dot-segment-dataset).
+var c19Datasets = []string{"ds", "Prod-1", "my%20data", "a%2Fb", "team+checkout", "a%2Bb", "a+b%20c", "x%25y", "100%25+1",
+	"q%26a%3Db", "k=v&x", "w%3Fx%23y", "caf%C3%A9", "a.b", "v1.2+rc%201", "%2B", "+", "a%2520b", "semi;colon,comma", "at@colon:"}
+
+// c19PathDecode: what a path segment means (RFC 3986): %XX is the byte XX, every
+// other character stands for itself - in particular '+' is a plus sign.
+func c19PathDecode(seg string) string {
+	var b []byte
+	for i := 0; i < len(seg); i++ {
+		if seg[i] == '%' && i+2 < len(seg)+0 && i+2 <= len(seg)-1+0 {
+			if v, err := strconv.ParseUint(seg[i+1:i+3], 16, 8); err == nil {
+				b = append(b, byte(v))
+				i += 2
+				continue
+			}
+		}
+		b = append(b, seg[i])
+	}
+	return string(b)
 }
 
 const (
@@ -149,13 +176,19 @@ func genC19(t *rapid.T) c19Case {
 			Enc:      rapid.SampledFrom([]string{"json", "msgpack"}).Draw(t, "enc"),
 			Comp:     rapid.SampledFrom([]string{"", "", "gzip", "zstd"}).Draw(t, "comp"),
 			Key:      rapid.SampledFrom([]string{c19Legacy, c19NonLegacy}).Draw(t, "key"),
-			Dataset:  rapid.SampledFrom([]string{"ds", "my%20data", "a%2Fb", "Prod-1"}).Draw(t, "dataset"),
+			Dataset:  rapid.SampledFrom(c19Datasets).Draw(t, "dataset"),
 			UA:       rapid.SampledFrom([]string{"", "libhoney-go/1.2.3"}).Draw(t, "ua"),
 		}
 		r.Events = rapid.SliceOfN(ev, 1, 6).Draw(t, "events")
 		return r
 	})
-	return c19Case{Stressed: rapid.IntRange(0, 2).Draw(t, "stressed") == 0, Reqs: rapid.SliceOfN(req, 1, 3).Draw(t, "reqs")}
+	c := c19Case{Stressed: rapid.IntRange(0, 2).Draw(t, "stressed") == 0}
+	c.Hop = rapid.IntRange(0, 2).Draw(t, "hop") == 0
+	if c.Hop {
+		c.HopCompress = rapid.Bool().Draw(t, "hop_compress")
+	}
+	c.Reqs = rapid.SliceOfN(req, 1, 3).Draw(t, "reqs")
+	return c
 }
 
 func c19Data(e c19Ev, vid string) map[string]any {
@@ -325,10 +358,50 @@ func execC19(c c19Case) vkit.Result {
 		EnvironmentCacheTTL: time.Hour,
 	}
 	coll := &rtRecCollector{rec: rec, stressed: c.Stressed, immediate: c19Immediate}
+	otherAddr := c19OtherAddr
+	var peerTx transmit.Transmission = &rtRecTransmission{"peer", rec}
+	recB := &rtRecorder{}
+	var hopDT *transmit.DirectTransmission
+	if c.Hop {
+		// node B owns everything it is sent
+		cfgB := &config.MockConfig{
+			GetHoneycombAPIVal: fake.URL, TraceIdFieldNames: cfg.TraceIdFieldNames, ParentIdFieldNames: cfg.ParentIdFieldNames,
+			GetSamplerTypeVal: cfg.GetSamplerTypeVal, GetSamplerTypeName: cfg.GetSamplerTypeName, EnvironmentCacheTTL: time.Hour,
+		}
+		nodeB, err := rtStartNode(rtNodeOpts{
+			Cfg: cfgB, Upstream: &rtRecTransmission{"upstream", recB}, Peer: &rtRecTransmission{"peer", recB},
+			Collector: &rtRecCollector{rec: recB},
+			Sharder:   &rtSharder{self: &rtShard{"http://node-b"}, other: &rtShard{"http://nobody"}},
+		})
+		if err != nil {
+			res.Class("inconclusive-timing")
+			return res
+		}
+		defer nodeB.Stop()
+		otherAddr = "http://" + nodeB.PeerAddr
+		hopTransport := &http.Transport{DialContext: (&net.Dialer{Timeout: 5 * time.Second}).DialContext, MaxIdleConnsPerHost: 4}
+		defer hopTransport.CloseIdleConnections()
+		hopDT = transmit.NewDirectTransmission(types.TransmitTypePeer, hopTransport, 50, 2*time.Millisecond, 15*time.Second, c.HopCompress, nil)
+		hopDT.Logger, hopDT.Version, hopDT.Metrics, hopDT.Config = &logger.NullLogger{}, "verif", &metrics.NullMetrics{}, cfg
+		if err := hopDT.Start(); err != nil {
+			res.Class("inconclusive-timing")
+			return res
+		}
+		stopped := false
+		stopDT := func() {
+			if !stopped {
+				stopped = true
+				hopDT.Stop() // flushes every pending batch and waits for the answers
+			}
+		}
+		defer stopDT()
+		peerTx = &c19HopTx{rec: rec, real: hopDT}
+		res.Class("real-peer-hop")
+	}
 	node, err := rtStartNode(rtNodeOpts{
-		Cfg: cfg, Upstream: &rtRecTransmission{"upstream", rec}, Peer: &rtRecTransmission{"peer", rec},
+		Cfg: cfg, Upstream: &rtRecTransmission{"upstream", rec}, Peer: peerTx,
 		Collector: coll,
-		Sharder:   &rtSharder{self: &rtShard{c19SelfAddr}, other: &rtShard{c19OtherAddr}, foreign: c19Foreign},
+		Sharder:   &rtSharder{self: &rtShard{c19SelfAddr}, other: &rtShard{otherAddr}, foreign: c19Foreign},
 	})
 	if err != nil {
 		res.Class("inconclusive-timing")
@@ -361,7 +434,7 @@ func execC19(c c19Case) vkit.Result {
 			res.Class("inconclusive-timing")
 			return res // a request we cannot account for: no verdict for the case
 		}
-		ds := strings.NewReplacer("%20", " ", "%2F", "/").Replace(r.Dataset)
+		ds := c19PathDecode(r.Dataset)
 		n := len(r.Events)
 		if r.Endpoint == "event" {
 			n = 1
@@ -485,8 +558,8 @@ func execC19(c c19Case) vkit.Result {
 		case "foreign":
 			if s := expectOne("peer-event", "peer-span"); s != nil {
 				attrs(s, true)
-				if s.APIHost != c19OtherAddr {
-					res.Violate("C19/foreign/destination", "%s: forwarded to %q, owner is %q", where, s.APIHost, c19OtherAddr)
+				if s.APIHost != otherAddr {
+					res.Violate("C19/foreign/destination", "%s: forwarded to %q, owner is %q", where, s.APIHost, otherAddr)
 				}
 			}
 		case "stress":
